@@ -4,7 +4,7 @@ res = {}
 for f in ('/var/tmp/seeded_results.json', '/var/tmp/seeded_results2.json'):
     if os.path.exists(f): res.update(json.load(open(f)))
 ver = {}
-for f in ('/var/tmp/seeded_verify.json', '/var/tmp/seeded_verify2.json'):
+for f in ('/var/tmp/seeded_verify1.json', '/var/tmp/seeded_verify2.json'):
     if os.path.exists(f): ver.update(json.load(open(f)))
 rows = []
 for d in sorted(os.listdir('/verif/seeded')):
